@@ -8,3 +8,70 @@
  ((ite ((_ is VStr) v) (ite (= (shd (strSplit (sv v) ":")) "flags") 1 0)
   (ite ((_ is VList) v) (flagsInL (ls v)) 0))
   (ite ((_ is LNil) l) 0 (ite (> (flagsIn (hd l)) (flagsInL (tl l))) (flagsIn (hd l)) (flagsInL (tl l))))))
+
+; ---- the transforms themselves (C14), from the property statement and docs/index.html ("$encode")
+(declare-fun b64 (String) String)        ; encoding/base64 StdEncoding (assumed to be the standard encoding)
+(declare-fun sha256raw (String) String)  ; crypto/sha256 digest of the bytes written (assumed)
+(declare-fun hexenc (String) String)     ; encoding/hex.EncodeToString (assumed)
+(define-fun-rec fmtvL ((l Lst)) SLst (ite ((_ is LNil) l) SNil (SCons (fmtv (hd l)) (fmtvL (tl l)))))
+(define-fun-rec prefixL ((p String) (sl SLst)) Lst (ite ((_ is SNil) sl) LNil (LCons (VStr (str.++ p (shd sl))) (prefixL p (stl sl)))))
+(define-fun-rec flat1 ((l Lst)) Lst
+  (ite ((_ is LNil) l) LNil (app (ite ((_ is VList) (hd l)) (ls (hd l)) (LCons (hd l) LNil)) (flat1 (tl l)))))
+(define-fun-rec valuesK ((m MapC) (ks SLst)) Lst (ite ((_ is SNil) ks) LNil (LCons (select m (shd ks)) (valuesK m (stl ks)))))
+(define-fun tolistVal ((k String) (d String) (v Val)) Val
+  (VStr (ite (= v (VStr "")) k (str.++ k d (fmtv v)))))
+(define-fun-rec tolistVals ((k String) (d String) (l Lst)) Lst
+  (ite ((_ is LNil) l) LNil (LCons (tolistVal k d (hd l)) (tolistVals k d (tl l)))))
+(define-fun-rec tolistK ((m MapC) (ks SLst) (d String)) Lst
+  (ite ((_ is SNil) ks) LNil
+       (app (ite ((_ is VList) (select m (shd ks))) (tolistVals (shd ks) d (ls (select m (shd ks))))
+                 (LCons (tolistVal (shd ks) d (select m (shd ks))) LNil))
+            (tolistK m (stl ks) d))))
+(define-fun tolistMap ((v Val) (d String)) Lst (tolistK (mc v) (sortedKeys (mc v)) d))
+(define-fun-rec tolistL ((l Lst) (d String)) Lst (ite ((_ is LNil) l) LNil (app (tolistMap (hd l) d) (tolistL (tl l) d))))
+(define-fun-rec allMaps ((l Lst)) Bool (ite ((_ is LNil) l) true (and ((_ is VMap) (hd l)) (allMaps (tl l)))))
+
+; ---- dispatch of one transform string "cmd[:arg]" and of transform lists (left fold)
+(define-fun encCmd ((v String)) String (shd (strSplit v ":")))
+(define-fun encN ((v String)) Int (sllen (strSplit v ":")))
+(define-fun encArg ((v String)) String (slnth (strSplit v ":") 1))
+(declare-fun fmtByName (String) Int)        ; GetFormat(name): the codec record (0 = unknown format)
+(declare-fun encStrF (Val String) Val)
+(declare-fun encStrE (Val String) Bool)
+(define-funs-rec (
+  (encAnyF ((o Val) (v Val)) Val)
+  (encFoldF ((o Val) (l Lst)) Val)
+  (encAnyE ((o Val) (v Val)) Bool)
+  (encFoldE ((o Val) (l Lst)) Bool))
+ ((ite ((_ is VStr) v) (encStrF o (sv v)) (ite ((_ is VList) v) (encFoldF o (ls v)) VNil))
+  (ite ((_ is LNil) l) o (encFoldF (encAnyF o (hd l)) (tl l)))
+  (ite ((_ is VStr) v) (encStrE o (sv v)) (ite ((_ is VList) v) (encFoldE o (ls v)) true))
+  (ite ((_ is LNil) l) false (or (encAnyE o (hd l)) (encFoldE (encAnyF o (hd l)) (tl l))))))
+(define-fun flagsList () Val (VList (LCons (VStr "tolist:=") (LCons (VStr "prefix:--") LNil))))
+; the error cases of one transform (malformed arguments, wrong kind of value)
+(define-fun encStrErrSpec ((o Val) (v String)) Bool
+  (let ((c (encCmd v)) (n (encN v)))
+  (ite (= c "base64") (not (= n 1))
+  (ite (= c "flags") (or (not (= n 1)) (encAnyE o flagsList))
+  (ite (= c "flatten") (or (not (= n 1)) (not ((_ is VList) o)))
+  (ite (= c "join") (or (> n 2) (not ((_ is VList) o)))
+  (ite (= c "prefix") (or (not (= n 2)) (not ((_ is VList) o)))
+  (ite (= c "sha256") (not (= n 1))
+  (ite (= c "tolist") (or (not (= n 2)) (ite ((_ is VList) o) (not (allMaps (ls o))) (not ((_ is VMap) o))))
+  (ite (= c "values") (or (not (= n 1)) (not ((_ is VMap) o)))
+  (or (not (= n 1)) (= (fmtByName c) 0) (isErr (marshalE (fmtByName c) (VList (LCons o LNil)))))))))))))))
+; the value of one transform when it is not an error
+(define-fun encStrRel ((o Val) (v String) (r Val)) Bool
+  (let ((c (encCmd v)) (n (encN v)))
+  (ite (= c "base64") (= r (VStr (b64 (fmtv (finF o)))))
+  (ite (= c "flags") (= r (encAnyF o flagsList))
+  (ite (= c "flatten") (= r (VList (flat1 (ls o))))
+  (ite (= c "join") (= r (VStr (strJoin (fmtvL (ls o)) (ite (= n 2) (encArg v) ""))))
+  (ite (= c "prefix") (= r (VList (prefixL (encArg v) (fmtvL (ls o)))))
+  (ite (= c "sha256") (= r (VStr (hexenc (sha256raw (str.++ "" (fmtv (finF o)))))))
+  (ite (= c "tolist") (= r (VList (ite ((_ is VList) o) (tolistL (ls o) (encArg v)) (tolistMap o (encArg v)))))
+  (ite (= c "values") (= r (VList (valuesK (mc o) (sortedKeys (mc o)))))
+  (= r (VStr (marshalS (fmtByName c) (VList (LCons o LNil)))))))))))))))
+; AX encStrF-def: encStrF/encStrE are the transform function and its error predicate
+(assert (forall ((o Val) (v String)) (! (= (encStrE o v) (encStrErrSpec o v)) :pattern ((encStrE o v)))))
+(assert (forall ((o Val) (v String)) (! (=> (not (encStrE o v)) (encStrRel o v (encStrF o v))) :pattern ((encStrF o v)))))
